@@ -58,25 +58,32 @@ def jobs(tier, seed):
     q = (tier == 'quick')
     th = 0 if q else 1
     out = []
-    # ---- arithmetic
-    ncase = 300 if q else 20000
+    # ---- arithmetic.  Case counts are bounded by CPU budget per pair (core-seconds under ASan)
     for impl, curve, ms in PAIRS:
-        # number of special cases is roughly 40 (quick) .. 1100 (thorough, P-521)
-        est = (ncase + (200 if q else 1100)) * 1.5 * ms / 1000.0      # seconds of one worker
-        nw = max(1, min(16, int(est / (9.0 if q else 420.0)) + 1))
+        dup = impl.startswith('all_') and not (impl == 'all_m31' and curve in ('P256', 'C25519'))
+        if q:
+            ncase = 300 if ms >= 4 else 600 if ms >= 1.5 else 2000
+            nspecial = 200
+        else:
+            budget = 90.0 if dup else 180.0
+            ncase = int(min(20000, budget / (1.5 * ms / 1000.0)))
+            nspecial = 1100
+        est = (ncase + nspecial) * 1.5 * ms / 1000.0      # CPU seconds of the whole pair
+        nw = max(1, min(16, int(est / (9.0 if q else 60.0)) + 1))
         for w in range(nw):
             out.append((est / nw, Job('arith-%s-%s-%d' % (impl, curve, w), 'h_ec',
                                       ['--mode', 'arith', '--impl', impl, '--curve', curve, '--cases', ncase,
                                        '--seed', seed, '--worker', w, '--nworkers', nw, '--thorough', th],
                                       flavour='asan', libs=LIBS, timeout=300 if q else 2400)))
-    # ---- ECDSA: cases = signatures
-    for curve, nsig, nw in (('P256', 900 if q else 50000, 6 if q else 16),
-                            ('P384', 600 if q else 30000, 12 if q else 32),
-                            ('P521', 500 if q else 20000, 20 if q else 48)):
+    # ---- ECDSA: cases = signatures (each: 1 RFC 6979 comparison, 2 verifications of the valid signature,
+    #      1 arbitrary-hash-length signature, 3 mutated ones); CPU per signature 0.04 / 0.18 / 0.4 s
+    for curve, nsig, nw in (('P256', 900 if q else 30000, 6 if q else 24),
+                            ('P384', 450 if q else 7000, 12 if q else 24),
+                            ('P521', 350 if q else 2500, 20 if q else 20)):
         for w in range(nw):
             out.append((30.0 if q else 700.0, Job('ecdsa-%s-%d' % (curve, w), 'h_ec',
                                 ['--mode', 'ecdsa', '--curve', curve, '--cases', nsig, '--seed', seed,
-                                 '--worker', w, '--nworkers', nw, '--nverify', 2 if q else 2, '--nmut', 3 if q else 3,
+                                 '--worker', w, '--nworkers', nw, '--nverify', 2, '--nmut', 3,
                                  '--thorough', th],
                                 flavour='asan', libs=LIBS, timeout=300 if q else 2400)))
     # ---- conversions, key generation
